@@ -36,7 +36,7 @@ func genLiteralsCase(c *Ctx) (*litCase, *tlc.Result, error) {
 	var lc *litCase
 	var mu sync.Mutex
 	g := &tlc.Run{SpecDir: filepath.Join(Root, "spec"), Scratch: filepath.Join(c.Work, "genlit"), Module: "Gen_Literals", Workers: 2, Timeout: 10 * time.Minute,
-		Cfg: fmt.Sprintf("CONSTANTS\n  Tier = %q\n  Seed = %d\nINIT Init\nNEXT Next\nINVARIANTS Export\nCHECK_DEADLOCK FALSE\n", c.Tier, c.Seed),
+		Cfg: fmt.Sprintf("CONSTANTS\n  Tier = %q\n  Seed = %d\nINIT Init\nNEXT Next\nINVARIANTS LiteralsFit ArithSane Export\nCHECK_DEADLOCK FALSE\n", c.Tier, c.Seed),
 		OnLine: func(tag, js string) {
 			if tag == "LCASE" {
 				x := &litCase{}
